@@ -38,7 +38,11 @@ PROP = dict(
           "about 4% of uploads are larger, for those the listing count may lie between the number of runs and the number of "
           "matching results (query answers are still compared exactly). Non-trivial = at the time of a query or listing "
           "there are >= 2 uploads, the query has >= 2 terms of which >= 1 is a range, and the set of matching results is "
-          "neither empty nor everything stored. Unit 'splitwords': query.SplitWords against a reference state machine from "
+          "neither empty nor everything stored. Unit 'regress': the same comparison on fixed histories — the minimal "
+          "reproducers of the two defects this check found (C19-a: ListUploads answered a query with contradictory terms on "
+          "one key with the error EOF; C19-b: Labels.Equal took a missing key for an empty value, so results with different "
+          "name labels were stored as one record; both fixed) and hand-written edge histories (empty store, header block / "
+          "overwrite / deletion / server keys in the file, digit strings, ranges over server-assigned ids, limits). Unit 'splitwords': query.SplitWords against a reference state machine from "
           "its doc comment (blank/tab separate; double quotes and backslash escape; empty words dropped) on random strings "
           "over quotes, backslashes, blanks, tabs, operators, non-ASCII, and on texts built by quoting known words in four "
           "styles (which must come back exactly); non-trivial = contains a quote or backslash and yields >= 2 words. Unit "
@@ -59,7 +63,8 @@ PROP = dict(
         "single client, sequential requests; upload ids are only required to be non-empty and distinct here (their format and atomicity are C20)",
     ],
     units=[
-        R("machine", "A", "./c19", "TestC19Machine", (150, 12), (2500, 16)),
+        R("machine", "A", "./c19", "TestC19Machine", (300, 16), (5000, 16)),
+        E("regress", "A", "./c19", "TestC19Regress", 1, 1),
         R("splitwords", "A", "./c19", "TestC19SplitWords", (40000, 2), (600000, 16)),
         R("addtoquery", "B", "./analysis/app", "TestC19AddToQuery", (30000, 2), (450000, 16)),
     ],
